@@ -15,7 +15,20 @@ def controls(cprog, cfacts):
     return [k for k in CONTROL_KEYS if k not in keys]
 
 def run(ctx, prog, facts, tier):
-    rules_panic.check_parsers(ctx, prog, ['action::Action', 'square::Square', 'piece::Piece', 'direction::Direction'], 'C16')
+    I, _sites = rules_panic.check_parsers(ctx, prog, ['action::Action', 'square::Square', 'piece::Piece', 'direction::Direction'], 'C16')
+    ctx.rule('C16.canon', 'integers inside the notation are parsed from exactly one character (char::to_string): the integer parser of std '
+                          'also accepts a leading + and leading zeros, so parsing an unbounded piece of text would accept strings that are '
+                          'not the printed form of the result')
+    nparse = 0
+    for e in I.events:
+        if e[0] == 'int-parse':
+            nparse += 1
+            ok = e[3] == 'one-char'
+            ctx.ob('integer parse in %s is applied to a one-character string' % e[1], ok, sample=True)
+            if not ok:
+                ctx.finding('C16.canon', e[1] or '?', 'int-parse', 'an integer is parsed from text of unbounded length: "+1", "01", "0008" '
+                            'would be accepted although they are never printed', at=e[2])
+    ctx.floor('integer parses inside the notation parsers', nparse, 1)
     rules_text.check_piece_direction_tables(ctx, prog)
     rules_text.check_action_delegation(ctx, prog)
     ctx.floor('C16 parser panic site kinds (function, construct)', ctx.analysed.get('panic_site_kinds_parser', 0), 3)
